@@ -14,6 +14,10 @@ From FP Require Import Validate Effects EffectsProofs.
 Theorem C18_frame : forall h o, step h o = h.
 Proof. exact frame. Qed.
 Print Assumptions C18_frame.
+(* every participant of the histories, incl. NumPathsOptimization (through the class it wraps), MinGenSet, MinSetCover *)
+Theorem C18_frame_participants : forall p pass sup hc sv h, step h (op_of p pass sup hc sv) = h.
+Proof. exact frame_participants. Qed.
+Print Assumptions C18_frame_participants.
 Theorem C18_frame_histories : forall ops h, run ops h = h.
 Proof. exact run_frame. Qed.
 Print Assumptions C18_frame_histories.
